@@ -83,7 +83,10 @@ def loop_checks(chk, prog, fn, reader, only_tail=False):
     lp = cand[0]
     w = lp["where"]
     from rules import common as _common
-    _common.pre_loop_returns(chk, "R-ERR", FN, prog, fn, lp["head"], opaque=[GNEW], what="the block loop")
+    _hdr = okv(call(DES % (D + "header::Header"), reader))
+    _common.pre_loop_returns(chk, "R-ERR", FN, prog, fn, lp["head"], opaque=[GNEW], what="the block loop", zero_of=fld(_hdr, "data_block_count"),
+                             empty_ok=lambda l_: l_[0] == "adt" and l_[2] == "Ok" and l_[3][0][1][0] == "adt" and fld(l_[3][0][1], "header") == _hdr
+                             and all(fld(l_[3][0][1], f) == NONE for f in OPT_FIELDS))
     names = {fn.local_name(l): l for l in lp["tracked"]}
     if "message" not in names or "iter" not in names:
         chk.blind("VN", FN, "loop state is not (message, iterator): %s" % sorted(names), w)
@@ -126,7 +129,7 @@ def loop_checks(chk, prog, fn, reader, only_tail=False):
         chunk = ("vfld", nxt, "Some", "0")
         ptr = ("be", ("array", tuple(("idx", chunk, C(i, "usize")) for i in range(4))), "u32")
     locate_ok = []
-    n_rej = 0
+    rejects = []
     bid = call(DES % (D + "data_block_id::DataBlockId"), reader)
     name = None
     byte_form = False
@@ -145,10 +148,7 @@ def loop_checks(chk, prog, fn, reader, only_tail=False):
                 failing = [c for c in conds if len(c) == 3 and c[0][0] == "discr" and c[2] == ((1, 1),) and c[0][1][0] == "call"
                            and not c[0][1][1].endswith("::next") and sym._mentions(c[0][1], reader)]
                 if not failing:
-                    extra_c = [show(c[0])[:90] for c in conds if not (len(c) == 3 and c[0][0] == "discr") and not _name_test(c, bid)]
-                    n_rej += 1
-                    chk.ob("R-ERR", FN, not extra_c, "a block is refused without a failed stream step only for an unknown name" if not extra_c else
-                           "a block whose reads all succeed is refused depending on: %s" % "; ".join(sorted(set(extra_c)))[:300], w, key="reject-only-unknown-name#%d" % n_rej)
+                    rejects.append(([c for c in conds if _name_test(c, bid)], [c for c in conds if not (len(c) == 3 and c[0][0] == "discr") and not _name_test(c, bid)]))
             continue
         n_next += 1
         # ordered prefix: next -> seek(Start(entry + zext(pointer))) -> read id -> seek(Current(-size(id)))
@@ -220,6 +220,25 @@ def loop_checks(chk, prog, fn, reader, only_tail=False):
             chk.ob("R-TABLE", FN, False, "an iteration stores a block without exactly one name match (names %s, field %s)" % (true_lits, upd_field), w, key="dispatch-shape#%d" % n_next)
         it = val[li]
         chk.ob("R-LIN", FN, it[0] == "mutated" and it[3][0] == I, "one pointer consumed per iteration", w, key="advance")
+    # rejections that no failed step explains: grouped by what they test of the name, the other conditions on them must
+    # cover every case (then the rejection does not depend on them: it is the unknown-name rejection met on several paths)
+    import itertools as _it
+    groups = {}
+    for nm, ex in rejects:
+        groups.setdefault(tuple(sorted(map(repr, nm))), []).append(ex)
+    for n_rej, (_k, exs) in enumerate(sorted(groups.items()), 1):
+        terms = sorted({c[0] for ex in exs for c in ex}, key=repr)
+        dep = []
+        if any(len(c) != 2 for ex in exs for c in ex) or len(terms) > 6:
+            dep = [show(t)[:90] for t in terms]
+        else:
+            for asg in _it.product((True, False), repeat=len(terms)):
+                a = dict(zip(terms, asg))
+                if not any(all(a[c[0]] == c[1] for c in ex) for ex in exs):
+                    dep = [show(t)[:90] for t in terms]
+                    break
+        chk.ob("R-ERR", FN, not dep, "a block is refused without a failed stream step only for an unknown name" if not dep else
+               "a block whose reads all succeed is refused depending on: %s" % "; ".join(dep)[:300], w, key="reject-only-unknown-name#%d" % n_rej)
     if inline and not only_tail:
         chk.ob("VN", FN, bool(locate_ok) and all(locate_ok), "each pointer is the big-endian u32 of its chunk", w, key="pointer-endianness")
     # after the last block nothing else touches the reader: the message ends where its last block ends
